@@ -62,6 +62,7 @@ type vhIO struct {
 	ctxSeen []context.Context
 	encSent []bool // stream encryption state when each message was finished
 	encRecv []bool // stream encryption state when each inbound message was started
+	clearFrozen bool // a message crossed in the clear after the handshake digests were frozen
 	st      *stream.Stream
 }
 
@@ -78,6 +79,9 @@ func (io_ *vhIO) pop(ctx context.Context, kind int) (vhItem, error) {
 		io_.nIn++
 		if io_.st != nil {
 			io_.encRecv = append(io_.encRecv, io_.st.IsEncrypted())
+			if !io_.st.IsEncrypted() && stream.VHDigestsFrozen(io_.st) {
+				io_.clearFrozen = true
+			}
 		}
 		if io_.cur == nil {
 			return vhItem{}, vhErrClosed
@@ -169,6 +173,9 @@ func vhInstall(io_ *vhIO) func() {
 		vhio.sent = append(vhio.sent, vhio.out)
 		if vhio.st != nil {
 			vhio.encSent = append(vhio.encSent, vhio.st.IsEncrypted())
+			if !vhio.st.IsEncrypted() && stream.VHDigestsFrozen(vhio.st) {
+				vhio.clearFrozen = true
+			}
 		}
 		vhio.out = nil
 		return nil
@@ -278,7 +285,7 @@ var vhLevelNames = []string{"REQUIRED", "PREFERRED", "OPTIONAL", "NEVER"}
 // vhLevel is one of the four levels, kept symbolic (no path fork).
 func vhLevel(name string) SecurityLevel { return SecurityLevel(vPick(name, vhLevelNames)) }
 
-var vhMethodNames = []string{"FS", "TOKEN", "SSL", "CLAIMTOBE", "KERBEROS", "PASSWORD"}
+var vhMethodNames = []string{"FS", "TOKEN", "SSL", "CLAIMTOBE", "KERBEROS", "PASSWORD", "NONE"}
 
 // vhMethods is a method list of length (0|1)..2 whose elements stay symbolic.
 func vhMethods(name string, allowEmpty bool) []AuthMethod {
